@@ -69,6 +69,10 @@ fn real_main(args: &[String]) -> i32 {
     if args.len() >= 4 && args[2] == "--replay" {
         return driver::replay_main(&args[1], &args[3]);
     }
+    if args.len() >= 3 && args[2] == "determinism" {
+        let n = args.get(3).and_then(|s| s.parse().ok()).unwrap_or(2000);
+        return driver::determinism_main(&args[1], n);
+    }
     if args.len() >= 3 {
         if let Some(t) = Tier::parse(&args[2]) {
             return driver::driver_main(&args[1], t);
